@@ -174,9 +174,9 @@ func c17Protocol(c *ev.Ctx, r *rand.Rand, caseN int) {
 		return map[string]interface{}{"case": caseN, "items": N, "config": fmt.Sprintf("%+v", cfg), "ops": log, "all_responses_in_arrival_order": all}
 	}
 	peers := []string{"p0", "p1", "p2", "p3"}[:1+r.Intn(4)]
-	gen := map[string]int{} // suffix after unregistration: the same logical peer keeps its id (that is the point)
-	live := map[string][]uint32{}        // peer -> live session ids in creation order
-	lives := map[string]*c17life{}       // peer/session -> lifetime model
+	gen := map[string]int{}        // suffix after unregistration: the same logical peer keeps its id (that is the point)
+	live := map[string][]uint32{}  // peer -> live session ids in creation order
+	lives := map[string]*c17life{} // peer/session -> lifetime model
 	key := func(p string, sid uint32) string { return fmt.Sprintf("%s/%d", p, sid) }
 	former := map[string][][3]int{} // sessions that were live (and had progressed) when their peer unregistered
 	resumedWithOthers := 0
@@ -451,9 +451,9 @@ func c17Memory(c *ev.Ctx, r *rand.Rand, caseN int) {
 	s.Start()
 	defer s.Stop()
 	type sess struct {
-		peer         string
-		id           uint32
-		start, stop  int
+		peer        string
+		id          uint32
+		start, stop int
 	}
 	var sessions []sess
 	for k := 0; k < 6; k++ {
